@@ -537,6 +537,11 @@ struct app {
             sim::connack_cfg cfg; cfg.sp = (int) jint(s, "sp", -1); cfg.rc = (int) jint(s, "rc", 0); cfg.props = jprops(s);
             if (jint(s, "sticky", 0)) br.connack_default = cfg; else br.connack_queue.push_back(cfg);
         }
+        else if (op == "lose") { // a reply the broker owes is lost on the way (nothing is sent; the connection stays healthy)
+            size_t i = (size_t) jint(s, "i", 0);
+            if (i < br.obl.size()) { jev("b_lose").i("c", br.obl[i].conn).i("type", br.obl[i].kind).i("pid", br.obl[i].pid); br.obl.erase(br.obl.begin() + (long) i); }
+            else jev("diverged").str("step", op);
+        }
         else if (op == "bpub") {
             int cc = pick_conn(s);
             std::string msg = jstrk(s, "msg", "b" + std::to_string(br.ksend));
